@@ -125,6 +125,7 @@ func init() {
 									st.Execs++
 									cells[H(fmt.Sprint(min, dl, subset, ti, ae))] = struct{}{}
 									kase := map[string]interface{}{"accept": ae, "min": min, "rawLen": L, "subset(raw=1,gzip=2,br=4)": subset, "type": tc.ct, "body": bi}
+									c.Sample(kase)
 									if err != nil {
 										c.Violation("table", "fill-error", err.Error(), nil, kase, nil)
 										continue
